@@ -10,6 +10,7 @@ import DK.Driver.Solve
 import DK.Driver.Cons
 import DK.Driver.History
 import DK.Driver.Validate
+import DK.Driver.Projection
 /-! Line driver: one JSON operation per input line, one JSON answer per output line. -/
 namespace DK.Driver
 open Lean
@@ -35,6 +36,7 @@ def handle (line : String) : String :=
       else if op.startsWith "cons." then consOp op j
       else if op.startsWith "hist." then historyOp op j
       else if op.startsWith "validate." then validateOp op j
+      else if op.startsWith "proj." then projOp op j
       else throw s!"unknown op {op}" : Except String Json) with
     | .ok v => ok v
     | .error e => err e
